@@ -619,7 +619,7 @@ def run_block(tree, cq, variables, spec_records, subst, lmax=5, ilevel=2, domain
     return fold, ci, r, info, hooks, B, after_dh
 
 
-def check_bodies(run, tree, aspects=("layout", "values", "skip")):
+def check_bodies(run, tree, aspects=("layout", "values", "skip"), all_subsets=False):
     ncache = si("ncache")
     hydro_vars = {"v1": (True, "d"), "v2": (False, "d"), "v3": (True, "d")}
     amr_vars = {"level": (True, "i"), "cpu": (True, "i"), "dx": (True, "d"), "position_x": (True, "d"), "position_y": (True, "d"), "position_z": (True, "d")}
@@ -630,11 +630,22 @@ def check_bodies(run, tree, aspects=("layout", "values", "skip")):
             cases.append((AMR, "amr", {k: ((k not in off), t) for k, (_, t) in amr_vars.items()}, L.AMR_BODY, {"ndim": Poly.const(3), "twotondim": Poly.const(8)}, False))
     for name, (cq, _) in MESH.items():
         cases.append((cq, name, hydro_vars, L.DOMAIN_HEADER + L.VAR_BODY, {"twotondim": Poly.const(8), "nvar": Poly.const(3)}, True))
+    if all_subsets:
+        # thorough tier: EVERY selection of the six AMR variables and every selection of the variables of a mesh reader
+        import itertools
+        cases = []
+        names = list(amr_vars)
+        for r_ in range(0, len(names) + 1):
+            for off in itertools.combinations(names, r_):
+                cases.append((AMR, "amr", {k: ((k not in off), t) for k, (_, t) in amr_vars.items()}, L.AMR_BODY, {"ndim": Poly.const(3), "twotondim": Poly.const(8)}, False))
+        for name, (cq, _) in MESH.items():
+            for flags in itertools.product((True, False), repeat=3):
+                cases.append((cq, name, {"v%d" % (i + 1): (f, "d") for i, f in enumerate(flags)}, L.DOMAIN_HEADER + L.VAR_BODY, {"twotondim": Poly.const(8), "nvar": Poly.const(3)}, True))
     for cq, name, variables, spec, subst, dh in cases:
         m = tree.method(tree.cls(cq), "read_variables")
         run.analysed(m)
         off = [k for k, (rd, _) in variables.items() if not rd]
-        construct = "%s::owner-block" % cq + ("[not selected: %s]" % ", ".join(off) if cq == AMR and off else "")
+        construct = "%s::owner-block" % cq + ("[not selected: %s]" % ", ".join(off) if (cq == AMR or all_subsets) and off else "")
         try:
             try:
                 fold, ci, r, info, hooks, B, after_dh = run_block(tree, cq, variables, spec, subst, domain_header=True)
@@ -911,11 +922,11 @@ def part_spec(variables, tag=""):
     return recs
 
 
-def check_part_header(run, tree, only_read_vs_skip=False):
-    variables = {"p0": (False, "d"), "p1": (True, "d"), "p2": (False, "i"), "p3": (True, "b"), "p4": (False, "d"), "p5": (True, "i")}
+def check_part_header(run, tree, only_read_vs_skip=False, variables=None, tag=""):
+    variables = variables or {"p0": (False, "d"), "p1": (True, "d"), "p2": (False, "i"), "p3": (True, "b"), "p4": (False, "d"), "p5": (True, "i")}
     m = tree.method(tree.cls(PART), "read_header")
     run.analysed(m)
-    construct = PART + ".read_header"
+    construct = PART + ".read_header" + tag
     try:
         fold = Fold(FileSpec(part_spec(variables)))
         hooks = layout_hooks(fold)
@@ -988,3 +999,14 @@ def check_part_header(run, tree, only_read_vs_skip=False):
         run.ob(construct + "::inactive", not fold.events and same, m.where(), "an uninitialised reader decodes %d records" % len(fold.events), "", nontrivial=False)
     except (Raised, ProgramRaised) + ERR as e:
         run.unresolved(construct + "::inactive", m.where(), "cannot fold: %s" % e)
+
+
+
+def check_part_header_space(run, tree):
+    """thorough tier: the particle header folded for every selection of six variables (2**6) under two type assignments (d i b d i b and
+    b d d i i d): alignment by byte position, typed read/skip agreement and the pieces of every selected variable"""
+    import itertools
+    for types in ("dibdib", "bddiid"):
+        for flags in itertools.product((True, False), repeat=6):
+            variables = {"p%d" % i: (f, t) for i, (f, t) in enumerate(zip(flags, types))}
+            check_part_header(run, tree, variables=variables, tag="[types %s, selected %s]" % (types, "".join("1" if f else "0" for f in flags)))
